@@ -1,5 +1,5 @@
 (* C05 - the accepted language is exactly the documented grammar over the reference tokenisation. *)
-From Spdx Require Import Props.Shipped Spec.Lex Spec.Grammar Spec.Reject Proofs.ScanRef Proofs.ParseGrammar Proofs.ApiFacts Proofs.RejectProof Proofs.Unknown Proofs.IdWords.
+From Spdx Require Import Props.Shipped Spec.Lex Spec.Grammar Spec.Reject Proofs.ScanRef Proofs.ParseGrammar Proofs.ApiFacts Proofs.RejectProof Proofs.Unknown Proofs.IdWords Model.ParseStack Proofs.ParseStack.
 Local Open Scope list_scope.
 
 (* the scanner of scan.go, with its buffer rewriting and look-behind, is the reference tokeniser *)
@@ -116,6 +116,12 @@ Example C05_examples :
      = repeat false 16.
 Proof. vm_compute. split; reflexivity. Qed.
 
+(* the parser AS IT IS WRITTEN (stack of operand groups, no recursion per parenthesis level; Model/ParseStack.v) accepts
+   exactly the derivable token sequences and builds exactly the derivation's tree: precedence of AND over OR, grouping
+   by parentheses and right-leaning chains are those of the grammar, for any length and nesting depth *)
+Theorem C05_parser_as_written ts t : ps_tokens ts = Ok t <-> d_expr ts t.
+Proof. exact (stack_is_grammar ts t). Qed.
+
 (* axioms the property theorems of this file depend on (one traversal for all of them) *)
-Definition C05_theorems := (@C05_scanner_general, @C05, @C05_accepted_iff_shape, @C05_parser_accepts_iff_shape, @C05_rejected_bad_pair, @C05_rejected_bad_first, @C05_rejected_bad_last, @C05_rejected_unbalanced, @C05_named_classes, @C05_id_words, @C05_unknown_ids_rejected).
+Definition C05_theorems := (@C05_scanner_general, @C05, @C05_accepted_iff_shape, @C05_parser_accepts_iff_shape, @C05_rejected_bad_pair, @C05_rejected_bad_first, @C05_rejected_bad_last, @C05_rejected_unbalanced, @C05_named_classes, @C05_id_words, @C05_unknown_ids_rejected, @C05_parser_as_written).
 Redirect "assumptions/C05" Print Assumptions C05_theorems.
